@@ -245,26 +245,17 @@ def wrapPart (L : Int) (p : Part) : List Part :=
 /-- the pieces `offset_location` makes of a location before it merges abutting ones -/
 def rotPieces (L k : Int) (l : Loc) : List Part := l.parts.flatMap fun p => wrapPart L (shiftPart k p)
 
-/-- no piece abuts both its neighbours (three exons in a row each ending where the next starts: there the
-    merge step of `offset_location` itself drops bases — it keeps `previous.start`, not the start of what was
-    merged so far) -/
-def chainFree : List Part → Bool
-  | a :: b :: c :: rest => !(decide (a.hi = b.lo) && decide (b.hi = c.lo)) && chainFree (b :: c :: rest)
-  | _ => true
-
-/-- the rotation of `l` by `k` that `offset_location` performs is sound: all parts on one strand (abutting
-    pieces of different strands raise) and no chain of abutting pieces -/
-def rotOK (L k : Int) (l : Loc) : Bool :=
-  (match l.parts with
-   | [] => false
-   | p :: ps => ps.all (·.strand == p.strand)) && chainFree (rotPieces L k l)
+/-- all parts on one strand (abutting pieces of different strands make `offset_location` raise) -/
+def oneStrand (l : Loc) : Bool :=
+  match l.parts with
+  | [] => false
+  | p :: ps => ps.all (·.strand == p.strand)
 
 /-- the record is not empty; the region lies in it (`start < end`, or `0 < end ≤ start < L` when it runs over
     the origin — `start = end`: all the way round); every feature has non-empty parts inside the record.  For a
     region over the origin, where `offset_location` is at work: a feature that runs over the origin has one
-    part on each side of it, or is shorter than the record and `rotOK` for both offsets used (`-start`,
-    `L - start`); any other feature has exons that fit into its hull (they do not overlap) and is `rotOK` for the
-    offset `L - start` -/
+    part on each side of it, or is shorter than the record with all parts on one strand; any other feature has
+    exons that fit into its hull (they do not overlap) and all parts on one strand -/
 def wfInput (rd : RegionData) (rec : BioRecord) : Bool :=
   let L := rec.length
   decide (0 < L) &&
@@ -273,9 +264,8 @@ def wfInput (rd : RegionData) (rec : BioRecord) : Bool :=
   rec.features.all fun f =>
     partsOK L f.loc &&
     (!rd.crossesOrigin ||
-      (if bridgesOrigin f.loc then
-         twoPart L f.loc || (decide (f.loc.len ≠ L) && rotOK L (-rd.start) f.loc && rotOK L (L - rd.start) f.loc)
-       else decide (f.loc.len ≤ f.loc.end - f.loc.start) && rotOK L (L - rd.start) f.loc))
+      (if bridgesOrigin f.loc then twoPart L f.loc || (decide (f.loc.len ≠ L) && oneStrand f.loc)
+       else decide (f.loc.len ≤ f.loc.end - f.loc.start) && oneStrand f.loc))
 
 /-! ### references go through one renumbering per kind -/
 
@@ -373,14 +363,50 @@ def CoresAgree (fs : List BioFeature) : Prop :=
   ∀ g ∈ fs, g.type = "protocluster" → ∃ t core, g.q.coreLoc = some t ∧ locFromString t = some core ∧
     ∃ g' ∈ fs, g'.type = "proto_core" ∧ g'.q.protoNumber = g.q.protoNumber ∧ ∀ i, core.mem i = g'.loc.mem i
 
-/-- KF-C12-abutting-exons: a feature that `offset_location` has to re-assemble (one running over the origin, or
-    one after the origin whose end lands on the file's end) has three exons in a row each ending where the next
-    starts; the merge step keeps `previous.start` instead of the start of what it merged so far and drops bases -/
-def chainLoses (rd : RegionData) (rec : BioRecord) : Bool :=
+/-! ### the write does not raise (hypothesis `writable`) -/
+
+def hasKey {α} (d : List (Int × α)) (k : Int) : Bool := (d.map (·.1)).contains k
+
+/-- a location-valued motif qualifier reads back to a location with at least one part -/
+def textOK : Option String → Bool
+  | none => true
+  | some t => match locFromString t with
+    | some l => !l.parts.isEmpty
+    | none => false
+
+/-- every lookup `_adjust_features` makes for this feature finds its key, and its motif texts read back -/
+def adjustable (rd : RegionData) (f : BioFeature) : Bool :=
+  if f.type == "region" then
+    f.q.candNumbers.all (hasKey (candDict rd)) && f.q.subNumbers.all (hasKey (subDict rd))
+  else if f.type == "cand_cluster" then
+    (match f.q.candNumber with | some n => hasKey (candDict rd) n | none => false) &&
+    (match f.q.protoNumbers with | some ps => ps.all (hasKey (protoDict rd)) | none => false)
+  else if f.type == "protocluster" || f.type == "proto_core" then
+    match f.q.protoNumber with | some n => hasKey (protoDict rd) n | none => false
+  else if f.type == "subregion" then
+    match f.q.subNumber with | some n => hasKey (subDict rd) n | none => false
+  else if f.type == "CDS_motif" then textOK f.q.leaderLoc && textOK f.q.tailLoc
+  else true
+
+/-- the feature passes one of the tests that put features into the region record -/
+def mayBeWritten (rd : RegionData) (L : Int) (f : BioFeature) : Bool :=
+  if rd.crossesOrigin then
+    (decide (rd.start ≤ f.loc.start) && decide (f.loc.end ≤ L)) || (decide (0 ≤ f.loc.start) && decide (f.loc.end ≤ rd.end)) ||
+    bridgesOrigin f.loc
+  else decide (rd.start ≤ f.loc.start) && decide (f.loc.end ≤ rd.end)
+
+/-- every feature that may end up in the region file is `adjustable` -/
+def writable (rd : RegionData) (rec : BioRecord) : Bool :=
+  rec.features.all fun f => !mayBeWritten rd rec.length f || adjustable rd f
+
+/-- the region's own feature: exactly one feature of type `region` passes the tests that put features into the
+    region record, and it has the region's location (hypothesis of `one_region`) -/
+def regionFeatureOK (rd : RegionData) (rec : BioRecord) : Bool :=
   let L := rec.length
-  rd.crossesOrigin && rec.features.any fun f =>
-    if bridgesOrigin f.loc then !chainFree (rotPieces L (-rd.start) f.loc)
-    else decide (0 ≤ f.loc.start) && decide (f.loc.end ≤ rd.end) && !offsetTrivial f.loc (L - rd.start) L &&
-         !chainFree (rotPieces L (L - rd.start) f.loc)
+  match rec.features.filter fun f => f.type == "region" && mayBeWritten rd L f with
+  | [f] =>
+    if rd.crossesOrigin then f.loc == .compound [⟨rd.start, L, .fwd⟩, ⟨0, rd.end, .fwd⟩]
+    else f.loc == .simple ⟨rd.start, rd.end, .fwd⟩
+  | _ => false
 
 end ASV.RegionExtract
